@@ -158,7 +158,7 @@ def run(F, S, R, tier):
         # the size compared by the loop follows the file it currently holds: both open_append results feed head_size
         oa = bd.calls_to(r"FreezerFilesBuilder::open_append$")
         oa_loop = [c for c in oa if bd.dominates(nxt_loop[0].bb, c.bb)]
-        ne = [(s_, sw) for s_, sw in K.find_cmp(bd, [r"var:expect_head_size"], [r"var:head_size"]) if s_.op == "ne"]
+        ne = [(s_, sw) for s_, sw in K.find_cmp(bd, [r"field:.*IndexEntry\.offset$"], [r"call:.*FreezerFilesBuilder::open_append$"]) if s_.op == "ne"]
         if len(oa) >= 2 and oa_loop and ne:
             s_, sw = ne[0]
             hs = s_.a if sw else s_.b
@@ -176,7 +176,7 @@ def run(F, S, R, tier):
         else:
             R.bad("prov/head-agreement/head-size/anchor-lost", "open_append x2 / repair condition not found", [bd.where()])
         # repair loop conditions: truncate head when it is longer than the index says, truncate index when shorter
-        sites = K.find_cmp(bd, [r"var:expect_head_size"], [r"var:head_size"])
+        sites = K.find_cmp(bd, [r"field:.*IndexEntry\.offset$"], [r"call:.*FreezerFilesBuilder::open_append$"])
         opsf = sorted((K.SWAP[s.op] if sw else s.op) for s, sw in sites)
         if opsf == ["gt", "lt", "ne"]:
             R.ok("cmp/repair", "repair loops while expected != actual, truncating the head when expected < actual and the index when expected > actual", [s.where() for s, _ in sites])
